@@ -2,9 +2,9 @@ package main
 
 import (
 	"fmt"
-	"os"
 	"math"
 	"math/rand"
+	"os"
 	"sort"
 	"strconv"
 	"strings"
@@ -13,7 +13,6 @@ import (
 )
 
 func getenv(n string) string { return os.Getenv(n) }
-
 
 // ---------------------------------------------------------------------------------------------
 // store-mode generator. It is adaptive: every generated line is executed at once against the
@@ -40,19 +39,19 @@ type profile struct {
 }
 
 var profiles = map[string]profile{
-	"C01": {name: "C01", wIndex: 1, wFilter: 1, wKey: 1, wSnapshot: 1, wReplica: 1, wRollback: 1, wBulk: 3, wDropCol: 1, maxSteps: 30},
-	"C02": {name: "C02", wIndex: 2, wFilter: 1, wKey: 2, wRollback: 6, wFailIns: 2, wBulk: 1, wObserve: 4, wTrigger: 1, maxSteps: 24},
-	"C03": {name: "C03", wIndex: 8, wFilter: 4, wSnapshot: 2, wReplica: 2, wRollback: 1, wBulk: 2, maxSteps: 30},
-	"C04": {name: "C04", wIndex: 4, wFilter: 12, wBulk: 3, wRollback: 1, maxSteps: 26},
-	"C06": {name: "C06", wIndex: 2, wReplica: 8, wKey: 1, wSort: 1, wBulk: 2, wRollback: 1, maxSteps: 30},
-	"C07": {name: "C07", wIndex: 2, wSnapshot: 8, wKey: 1, wSort: 1, wBulk: 3, wRollback: 1, maxSteps: 30},
-	"C09": {name: "C09", wBulk: 3, wReplica: 1, wSnapshot: 1, wRollback: 1, wFilter: 1, maxSteps: 34},
-	"C11": {name: "C11", wBulk: 6, wRollback: 1, wFilter: 1, maxSteps: 40},
-	"C12": {name: "C12", wKey: 100, wRollback: 2, wIndex: 1, wSnapshot: 1, wReplica: 1, maxSteps: 30},
-	"C15": {name: "C15", wReplica: 2, wRollback: 3, wFailIns: 1, wBulk: 2, wDropCol: 3, wIndex: 1, maxSteps: 26},
-	"C16": {name: "C16", wSort: 100, wFilter: 5, wIndex: 2, wBulk: 2, wSnapshot: 1, wReplica: 1, maxSteps: 30},
-	"C17": {name: "C17", wReplica: 6, wSnapshot: 4, wBulk: 3, wRollback: 1, wIndex: 1, wFilter: 1, maxSteps: 30},
-	"C19": {name: "C19", wTrigger: 100, wRollback: 3, wBulk: 1, wReplica: 1, wSnapshot: 1, maxSteps: 30},
+	"C01":   {name: "C01", wIndex: 1, wFilter: 1, wKey: 1, wSnapshot: 1, wReplica: 1, wRollback: 1, wBulk: 3, wDropCol: 1, maxSteps: 30},
+	"C02":   {name: "C02", wIndex: 2, wFilter: 1, wKey: 2, wRollback: 6, wFailIns: 2, wBulk: 1, wObserve: 4, wTrigger: 1, maxSteps: 24},
+	"C03":   {name: "C03", wIndex: 8, wFilter: 4, wSnapshot: 2, wReplica: 2, wRollback: 1, wBulk: 2, maxSteps: 30},
+	"C04":   {name: "C04", wIndex: 4, wFilter: 12, wBulk: 3, wRollback: 1, maxSteps: 26},
+	"C06":   {name: "C06", wIndex: 2, wReplica: 8, wKey: 1, wSort: 1, wBulk: 2, wRollback: 1, maxSteps: 30},
+	"C07":   {name: "C07", wIndex: 2, wSnapshot: 8, wKey: 1, wSort: 1, wBulk: 3, wRollback: 1, maxSteps: 30},
+	"C09":   {name: "C09", wBulk: 3, wReplica: 1, wSnapshot: 1, wRollback: 1, wFilter: 1, maxSteps: 34},
+	"C11":   {name: "C11", wBulk: 6, wRollback: 1, wFilter: 1, maxSteps: 40},
+	"C12":   {name: "C12", wKey: 100, wRollback: 2, wIndex: 1, wSnapshot: 1, wReplica: 1, maxSteps: 30},
+	"C15":   {name: "C15", wReplica: 2, wRollback: 3, wFailIns: 1, wBulk: 2, wDropCol: 3, wIndex: 1, maxSteps: 26},
+	"C16":   {name: "C16", wSort: 100, wFilter: 5, wIndex: 2, wBulk: 2, wSnapshot: 1, wReplica: 1, maxSteps: 30},
+	"C17":   {name: "C17", wReplica: 6, wSnapshot: 4, wBulk: 3, wRollback: 1, wIndex: 1, wFilter: 1, maxSteps: 30},
+	"C19":   {name: "C19", wTrigger: 100, wRollback: 3, wBulk: 1, wReplica: 1, wSnapshot: 1, maxSteps: 30},
 	"dirty": {name: "dirty", wIndex: 3, wFilter: 3, wKey: 1, wSort: 1, wTrigger: 1, wSnapshot: 1, wReplica: 2, wRollback: 3, wFailIns: 3, wBulk: 2, wObserve: 1, wDropCol: 1, dirty: true, maxSteps: 30},
 }
 
@@ -65,31 +64,31 @@ type genCol struct {
 }
 
 type gen struct {
-	r       *rand.Rand
-	p       profile
-	impl    *storeImpl
-	lines   []string
-	feats   map[string]bool
-	rep     *Report
-	cols    []genCol
-	indexes []string // index name
-	idxOn   map[string]string
-	sorts   []string
-	trigs   []string
-	keyCol  string
-	live    map[uint32]bool
-	keys    []string // key alphabet (hex)
-	hasRep  bool
-	nTxn    int
-	nIdx    int
-	nCol    int
-	cap     int
-	logger  string
+	r        *rand.Rand
+	p        profile
+	impl     *storeImpl
+	lines    []string
+	feats    map[string]bool
+	rep      *Report
+	cols     []genCol
+	indexes  []string // index name
+	idxOn    map[string]string
+	sorts    []string
+	trigs    []string
+	keyCol   string
+	live     map[uint32]bool
+	keys     []string // key alphabet (hex)
+	hasRep   bool
+	nTxn     int
+	nIdx     int
+	nCol     int
+	cap      int
+	logger   string
 	enumPool []string
-	dead    bool
-	hasVal  map[uint32]map[string]bool // committed values known to the generator
-	txnRes  map[string]bool            // (off|col) that had a possibly resizing merge in the open transaction
-	txnSet  map[string]bool            // (off|col) written in the open transaction
+	dead     bool
+	hasVal   map[uint32]map[string]bool // committed values known to the generator
+	txnRes   map[string]bool            // (off|col) that had a possibly resizing merge in the open transaction
+	txnSet   map[string]bool            // (off|col) written in the open transaction
 }
 
 func (g *gen) emit(line string) string {
@@ -237,7 +236,7 @@ func (g *gen) writeActionAt(off uint32, known bool, allowMerge bool) string {
 			g.feat("merge-string")
 			return fmt.Sprintf("merge:%s:%s", c.name, g.strValue(false))
 		}
-		return fmt.Sprintf("set:%s:%s", c.name, g.strValue(c.merge != "concat"))
+		return fmt.Sprintf("set:%s:%s", c.name, g.strValue(c.merge != "concat" && c.merge != "tail")) // no 65535-byte values where a merge lengthens them (O2)
 	case c.kind == "enum":
 		return fmt.Sprintf("set:%s:%s", c.name, g.enumValue())
 	case c.kind == "record":
@@ -390,7 +389,7 @@ func (g *gen) setup() {
 		g.feat("deadline-column")
 	}
 	// cheap multi-chunk population: rows around the 16K-chunk edges, inserted through Replay
-	if r.Intn(3) == 0 || (g.p.name == "C17" && r.Intn(3) > 0) {
+	if r.Intn(3) == 0 || (g.p.name == "C17" && r.Intn(3) > 0) || (g.p.wKey >= 100 && r.Intn(4) > 0) {
 		pool := []uint32{5, 63, 64, 16383, 16384, 16385, 16390, 20000, 32767, 32768, 32769, 40000}
 		var offs []string
 		for _, o := range pool {
@@ -403,6 +402,22 @@ func (g *gen) setup() {
 			g.emit("p sparse " + strings.Join(offs, " "))
 			g.feat("sparse-multichunk")
 			g.feat("row-in-chunk>=1")
+			// keyed collection: the far rows get keys of their own (so that re-keying, deleting and
+			// upserting by key reach rows whose absolute and chunk-relative offsets differ)
+			if g.keyCol != "" && r.Intn(4) > 0 {
+				g.nTxn++
+				tid := fmt.Sprintf("k%d", g.nTxn)
+				g.emit("p begin " + tid)
+				for _, o := range offs {
+					k := hexOf([]byte("s" + o))
+					g.emit(fmt.Sprintf("p %s at %s key:%s", tid, o, k))
+					if len(g.keys) < 12 {
+						g.keys = append(g.keys, k)
+					}
+				}
+				g.emit("p commit " + tid)
+				g.feat("keyed-far-rows")
+			}
 		}
 	}
 }
@@ -694,7 +709,11 @@ func (g *gen) keyOp(tid string, inserted, deleted map[uint32]bool, insertedOK *[
 		}
 		g.txnSet["key|"+key] = true
 	}
-	switch x := r.Intn(10); {
+	x := r.Intn(10)
+	if g.p.wKey >= 100 && x == 2 {
+		x = 9 // the key profile re-keys twice as often
+	}
+	switch {
 	case x < 3:
 		out := g.emit(strings.TrimRight(fmt.Sprintf("p %s inskey %s %s", tid, key, g.actions(r.Intn(3), false)), " "))
 		if off, ok := parseOff(out); ok {
@@ -713,13 +732,32 @@ func (g *gen) keyOp(tid string, inserted, deleted map[uint32]bool, insertedOK *[
 		g.emit(strings.TrimRight(fmt.Sprintf("p %s qkey %s %s get:%s", tid, key, g.actions(r.Intn(2), g.p.dirty), g.keyCol), " "))
 		g.feat("qkey")
 	case x < 9:
+		if g.p.wKey >= 100 && r.Intn(3) == 0 {
+			// the transaction has narrowed its own selection before it deletes by key
+			g.emit(fmt.Sprintf("p %s select %s => count", tid, []string{"with:missing", "without:" + g.keyCol, g.filter()}[r.Intn(3)]))
+			g.feat("delkey-after-filter")
+		}
 		out := g.emit(fmt.Sprintf("p %s delkey %s", tid, key))
 		if out == "ok" {
 			g.feat("delkey")
 		}
 	default:
-		// re-key an existing row
-		if off, ok := g.pickLive(); ok && (g.p.dirty || !deleted[off]) {
+		// re-key an existing row (in the key profile preferably one beyond the first chunk: absolute and
+		// chunk-relative offsets differ there)
+		off, ok := g.pickLive()
+		{
+			var far []uint32
+			for _, o := range g.liveList() {
+				if o >= 16384 {
+					far = append(far, o)
+				}
+			}
+			if len(far) > 0 && r.Intn(3) > 0 {
+				off, ok = far[r.Intn(len(far))], true
+				g.feat("rekey-chunk>=1")
+			}
+		}
+		if ok && (g.p.dirty || !deleted[off]) {
 			nk := g.keys[r.Intn(len(g.keys))]
 			if !g.p.dirty && (g.txnSet["key|"+nk] && nk != key) {
 				return
@@ -1140,6 +1178,9 @@ func runStore(rep *Report, replay string) {
 		n := 40
 		if rep.Tier == "thorough" {
 			n = 800
+		}
+		if p.wKey >= 100 {
+			n *= 5 // keyed histories are short (no bulk steps): more of them for the same cost
 		}
 		if v := envInt("VERIF_CASES"); v > 0 {
 			n = v
